@@ -85,7 +85,10 @@ func (le *luaEncoder) encodeString(writer io.Writer, node *CandidateNode) error 
 	switch node.Style {
 	case LiteralStyle, FoldedStyle, FlowStyle:
 		for i := 0; i < 10; i++ {
-			if !strings.Contains(node.Value, "]"+strings.Repeat("=", i)+"]") {
+			closer := "]" + strings.Repeat("=", i) + "]"
+			// the literal ends at the first occurrence of the closing bracket, which must be the one
+			// we append: a value ending in "]" (or "]=") would otherwise close it early
+			if !strings.Contains(node.Value+closer[:len(closer)-1], closer) {
 				err := writeString(writer, "["+strings.Repeat("=", i)+"[\n")
 				if err != nil {
 					return err
